@@ -25,6 +25,8 @@ INNERMOST FIRST, and
 which is what passing over a frame without a *binding* of the name does.
 -/
 namespace Nima
+-- name tokens are compared by spelling in this file (see `NameCmp` in Model/Edit.lean)
+attribute [local instance] NameCmp.spelled
 
 open Node
 
